@@ -6,6 +6,7 @@ package main
 //
 // Tie line (model: EncoderT.embed):
 //	bgv embed t= g= n= N= qs=<moduli of the part> up=0|1 scale= kind=u|i vals=   ⇒ canonical rows | err
+//	bgv embedp t= g= n= N= qs=<Q moduli> ps=<P moduli> up=0|1 scale= kind= vals=  ⇒ canonical rows of the P part
 // where the harness canonicalises the real output ACCORDING TO THE METADATA (INTT if IsNTT, IMForm if IsMontgomery).
 // Probes:
 //	embed_metadata   the raw output equals an independent reference encoding (big.Int gap embedding, times
@@ -133,6 +134,10 @@ func (c *Ctx) c07Embed(s *c05Set, reps int) {
 							c.Emit(head+" qs="+Vec(s.qs[:level+1])+tail, Mat(Canon(rql, pq.Q, ntt, mont)))
 							if kind == "qp" && !up {
 								c.Emit(head+" qs="+Vec(rp.ModuliChain())+tail, Mat(Canon(rp, pq.P, ntt, mont)))
+							}
+							if kind == "qp" {
+								// P part, both scaleUp values (model: EncoderT.embedP — the same integer T^-1 mod Q_level as in Q)
+								c.Emit("bgv embedp "+s.c07Head()+" N="+I(N)+" qs="+Vec(s.qs[:level+1])+" ps="+Vec(rp.ModuliChain())+tail, Mat(Canon(rp, pq.P, ntt, mont)))
 							}
 							// probe: raw output = reference transformed according to the metadata
 							pT := rt.NewPoly()
